@@ -121,6 +121,10 @@ type Machine struct {
 	cacheHits          int64
 	oneshot            *Solver
 	fmtOpaqueInts      bool
+	fixed              map[string]uint64 // replay mode: nondet variables take these values
+	fixedDecs          []Decision
+	fixedPos           int
+	lastObserves       []string
 	pushedFrame        bool
 	curDest            ssa.Value
 	intrinsicIsDefer   bool
